@@ -305,7 +305,7 @@ fn special_inputs(rng: &mut Rng) -> Vec<u8> {
 }
 
 pub fn run(ctx: &mut Ctx, which: Which) {
-    let n = ctx.n(480, 20_000);
+    let n = ctx.n(1600, 20_000);
     ctx.family("exchanges", n, |ctx, rng, i| {
         let (cfg, si) = gen_cfg(ctx, rng, false);
         let x = comm::exchange(ctx, &cfg);
@@ -326,7 +326,7 @@ pub fn run(ctx: &mut Ctx, which: Which) {
     });
     if which.c02 {
         // text variants and special byte strings (NUL, invalid UTF-8, sequences cut at chunk boundaries): cat-like child echoes the input
-        let nt = ctx.n(120, 3000);
+        let nt = ctx.n(400, 3000);
         ctx.family("text-and-special-bytes", nt, |ctx, rng, _i| {
             let data = special_inputs(rng);
             let entry = *rng.pick(&[Entry::ReadString, Entry::ExecCapture, Entry::CommunicateBytes, Entry::CommunicateStr]);
